@@ -46,6 +46,9 @@ func main() {
 	case "C10":
 		c10Main()
 	case "C20":
+		if len(os.Args) > 3 && os.Args[3] == "db" {
+			c20dbMain()
+		}
 		c20Main()
 	case "C25":
 		c25Main()
